@@ -1575,6 +1575,50 @@ def lower18(ctx) -> List[Ob]:
                 out.append(ok("LOWER-18", f.qualname, key, ctx.where(f, c), "the arm's block comes from the jump targets (one arm per successor)"))
     if n == 0:
         out.append(unresolved("LOWER-18", cg.qualname, "arm body looked up from", ctx.where(cg), "no lookup of a successor found in the branching arm of codegen"))
+    # the recursive cascade: the rest of the successors is the `orelse` of the test for the current one - a
+    # recursion that is returned on its own consumes a successor without a test
+    for g in scopes[1:]:
+        recs = [c for c in A.walk_no_nested(g.node) if isinstance(c, ast.Call) and isinstance(c.func, ast.Name) and c.func.id == g.name]
+        for c in recs:
+            key = "rest of the cascade hangs under the test of the current successor: " + A.alpha_key(c)[:40]
+            holder = None
+            for a in A.ancestors(c):
+                if isinstance(a, ast.keyword) and a.arg == "orelse":
+                    holder = a
+                    break
+                if isinstance(a, ast.stmt):
+                    break
+            ok_ = holder is not None
+            if not ok_:
+                st = A.enclosing_stmt(c)
+                if isinstance(st, ast.Assign) and len(st.targets) == 1 and isinstance(st.targets[0], ast.Name):
+                    nm = st.targets[0].id
+                    ok_ = any(isinstance(k, ast.keyword) and k.arg == "orelse" and nm in A.names_in(k.value) for k in ast.walk(g.node))
+            if ok_:
+                out.append(ok("LOWER-18", g.qualname, key, ctx.where(g, c), "the recursion is the else part of the generated if", nontrivial=False))
+            else:
+                out.append(bad("LOWER-18", g.qualname, key, ctx.where(g, c), f"'{A.unparse(A.enclosing_stmt(c) or c)[:60]}' goes on with the remaining successors without an if for the current one: the control values that select it fall through to the later arms (a `while .. else` left by `break` runs its else clause)"))
+    return out
+
+
+@rule("LOWER-21", 1, "only seal_block chooses between sealing inside and outside a loop (it consults the loop stack): no handler calls seal_inside_loop / seal_outside_loop itself")
+def lower21(ctx) -> List[Ob]:
+    out: List[Ob] = []
+    front = ctx.prog.cls(FRONT)
+    n = 0
+    for f in ctx.prog.functions:
+        if not f.module.name.endswith("ast_transforms"):
+            continue
+        for c in A.walk_no_nested(f.node):
+            if isinstance(c, ast.Call) and isinstance(c.func, ast.Attribute) and c.func.attr in ("seal_inside_loop", "seal_outside_loop"):
+                n += 1
+                key = f"{f.name}: " + A.alpha_key(c)[:60]
+                if f.name == "seal_block":
+                    out.append(ok("LOWER-21", f.qualname, key, ctx.where(f, c), "chosen by seal_block from the loop stack", nontrivial=False))
+                else:
+                    out.append(bad("LOWER-21", f.qualname, key, ctx.where(f, c), f"{A.unparse(c)[:60]} seals the block without asking the loop stack: a `continue` / `break` that ends this statement list belongs to the enclosing loop, here it is wired as if there were none (or to the wrong loop) and the statement is pruned as a no-op"))
+    if n == 0:
+        out.append(unresolved("LOWER-21", front.name, "sealing sites", "numba_scfg:1", "no call of seal_inside_loop / seal_outside_loop found"))
     return out
 
 
